@@ -122,11 +122,17 @@ CLAIMED = {
                 'identity); area vectors transform with the cofactor matrix and radicands are invariant under rigid motion (s^4 under scaling, '
                 'normals rotate); all modes agree with the closed form on affine cells; C11_relabel / C11_storage_perm(_mixed) via id-lookup '
                 'lemmas; C11_polyC_translate, mode-defect identities and agreement of all modes on planar-faced (not only affine) hex / prism / '
-                'pyramid cells (C11Modes); C11_brick_count / positive / sum for generate_brick. Tie: exact-rational evaluation of every kernel x mode against '
-                'the real float result (Schwartz-Zippel argument, N and grid size in the evidence) + differential id lookup / brick connectivity.',
+                'pyramid cells (C11Modes); C11_brick_count / positive / sum for generate_brick. Ties: (S) a translator by symbolic execution runs the '
+                'REAL calculate_element_volumes / _areas / _normals of the working tree on symbolic coordinates on every run, emits the traced '
+                'polynomials (Gen/Kernels.lean) and 93 KT_ theorems prove by ring that each equals the model kernel and what the model dispatch '
+                'returns (46 type x mode kernels); (P) exact-rational evaluation of every kernel x mode against the real float result '
+                '(Schwartz-Zippel argument, N and grid size in the evidence); (D) differential id lookup / mixed-mesh assembly / brick connectivity.',
         'note': 'over exact fields; sqrt, float32 accumulators, the truncated Gauss constant and LAPACK are runtime (scale-relative tolerances); '
-                'polyhedron centroid kernel: translation invariance by oracle only',
-        'technique': 'Lean 4 proof (ring identities proved structurally, lookup lemmas, counting bijection) + exact-rational P-tie + metamorphic oracle',
+                'the two Gauss-abscissa kernels and arities other than those traced are tie P only; a kernel the tracer cannot execute is recorded '
+                'and falls back to tie P (no alarm); trusted while tracing: Sym arithmetic, 3x3 det specification, formal norm, zero arrays, identity '
+                'normalise, float-literal rationalisation',
+        'technique': 'Lean 4 proof (ring identities proved structurally, lookup lemmas, counting bijection) + symbolic-execution translator of the real kernels '
+                     'with kernel-checked equality to the model (tie S) + exact-rational P-tie + metamorphic oracle',
         'design': '4/C11',
     },
     'C12': {
